@@ -949,6 +949,7 @@ proof fn lemma_e_str_intro(vs: Seq<TypeVariable>, e: Expression, l: bool, p: boo
 }
 
 /// ids collected per `if` branch are nodes of the graph
+spec fn errs_empty(e: Seq<Error>) -> bool { e.len() == 0 }
 spec fn ids_below(xs: Seq<TyID>, n: int) -> bool { forall|k: int| 0 <= k < xs.len() ==> (#[trigger] xs[k]).0 < n }
 spec fn tys_valid(tys: Seq<(&Span, Option<TyID>, Option<TyID>)>, n: int) -> bool {
     forall|k: int| 0 <= k < tys.len() ==> ((#[trigger] tys[k]).1 is Some ==> (tys[k].1->Some_0.0 as int) < n) && (tys[k].2 is Some ==> (tys[k].2->Some_0.0 as int) < n)
@@ -1908,12 +1909,26 @@ impl TypeChecker {
                         fields_in_range(given_fields, self.types@.len() as int), //# C07 expression.loop5.aux5
                         forall|k: int| 0 <= k < it.index@ ==> given_fields@.dom().contains((#[trigger] fields@[k]).0), //# C07 expression.loop5.every_given_field_gets_a_type
 //@   endloop
-//@   loop 6
+//@   loop 6 binder it
                     invariant vstd::std_specs::btree::key_obeys_cmp_spec::<String>(), //# C07 expression.loop6.aux1
+                        forall|j: int| 0 <= j < it.seq().len() ==> blob_fields@.dom().contains(*(#[trigger] it.seq()[j]).0), //# - expression.loop6.aux2
+                        errs_empty(errors@) ==> forall|j: int| 0 <= j < it.index@ ==> given_fields@.dom().contains(*(#[trigger] it.seq()[j]).0), //# C05 expression.loop6.a_field_of_the_blob_that_is_not_given_is_an_error
 //@   endloop
-//@   loop 7
+//@   ghost after-loop 6
+                assert(errs_empty(errors@) ==> forall|k: String| blob_fields@.dom().contains(k) ==> given_fields@.dom().contains(k)); //# C05 expression.every_field_of_the_blob_is_given_or_an_error_is_collected
+//@   endghost
+//@   loop 7 binder it
                     invariant vstd::std_specs::btree::key_obeys_cmp_spec::<String>(), //# C07 expression.loop7.aux1
+                        forall|j: int| 0 <= j < it.seq().len() ==> given_fields@.dom().contains(*(#[trigger] it.seq()[j]).0), //# - expression.loop7.aux2
+                        errs_empty(errors@) ==> forall|k: String| blob_fields@.dom().contains(k) ==> given_fields@.dom().contains(k), //# C05 expression.loop7.aux3
+                        errs_empty(errors@) ==> forall|j: int| 0 <= j < it.index@ ==> blob_fields@.dom().contains(*(#[trigger] it.seq()[j]).0), //# C05 expression.loop7.a_given_field_the_blob_does_not_have_is_an_error
 //@   endloop
+//@   ghost after
+//@| if !errors.is_empty() {
+//@| return Err(errors);
+//@| }
+                assert(given_fields@.dom() =~= blob_fields@.dom()); //# C05 expression.an_accepted_blob_instance_gives_exactly_the_fields_of_the_blob
+//@   endghost
 //@   ghost before-loop 8
                 let ghost n8 = self.types@.len();
 //@   endghost
